@@ -1,6 +1,7 @@
 package main
 
 import (
+	"sort"
 	"fmt"
 	"go/token"
 	"strings"
@@ -14,7 +15,7 @@ func init() {
 		Run: runC09,
 		Explanation: "Static analysis of the clawback authority and transfer structure: (R1) Clawback, UpdateVestingFunder and the merge branch of CreateClawbackVestingAccount reach their effect only over the edge on which the recorded funder equals the message signer; the funder field is written only by the constructor and UpdateVestingFunder; " +
 			"(R2) transferClawback stores the account returned by ComputeClawback(block time) and sends exactly the coins it returned from the account to the destination; ComputeClawback's new OriginalVesting derives from the vested amount and the returned coins from the unvested amount at the same time. " +
-			"The arithmetic statements of C09 (ReadSchedule monotonicity and limits, DisjunctPeriods = union, ConjunctPeriods = minimum, vested+unvested = original) are NOT decided: no sound static argument in reach bounds them, and no run-time test is substituted.",
+			"(R4) ReadSchedule and ReadPastPeriodCount treat a period ending exactly at the read time as ended and handle the two limits up front. The arithmetic statements of C09 (ReadSchedule monotonicity and limits, DisjunctPeriods = union, ConjunctPeriods = minimum, vested+unvested = original) are NOT decided: no sound static argument in reach bounds them, and no run-time test is substituted.",
 		Assumptions: []string{"sdk.Coins arithmetic", "MsgClawback/MsgUpdateVestingFunder.GetSigners return the funder address field"},
 		Declined:    []string{"every arithmetic statement of C09: ReadSchedule monotonicity/limits, DisjunctPeriods = union of release events, ConjunctPeriods = pointwise minimum, vested+unvested = original, validity of the resulting account"},
 	})
@@ -224,5 +225,94 @@ func runC09(r *Run) {
 	} else {
 		r.Bad("R2", "anchor/ComputeClawback", "", "not found")
 	}
+	// R4
+	r.Rule("R4", "TABLE.boundary-convention: in ReadSchedule and ReadPastPeriodCount every comparison between a running period end (a value derived from Period.Length) and the readTime parameter counts a period whose end equals readTime as ended ('the sum of all periods ended by t'); both functions return early with the empty result for readTime <= startTime and with the total for readTime >= endTime")
+	for _, name := range []string{"ReadSchedule", "ReadPastPeriodCount"} {
+		fn, ok := P.FnOK("x/vesting/types." + name)
+		if !ok {
+			r.Bad("R4", "anchor/"+name, "", "not found")
+			continue
+		}
+		checkBoundary(r, "R4", fn, "readTime")
+		// limits: readTime <= startTime and readTime >= endTime guards
+		lim := map[string]bool{}
+		eachInstr(fn, func(in ssa.Instruction) {
+			b, ok := in.(*ssa.BinOp)
+			if !ok {
+				return
+			}
+			x, y, op := b.X, b.Y, b.Op
+			if isParam(y, "readTime") {
+				x, y, op = y, x, flipCmp(op)
+			}
+			if !isParam(x, "readTime") {
+				return
+			}
+			for _, pn := range []string{"startTime", "endTime"} {
+				if isParam(y, pn) {
+					lim[pn+" "+op.String()] = true
+				}
+			}
+		})
+		r.Check(lim["startTime <="] && lim["endTime >="], "R4", fnID(fn)+"#limits", P.Pos(fnPos(fn)), "readTime <= startTime and readTime >= endTime are handled up front",
+			fmt.Sprintf("the limit guards are %v, expected readTime <= startTime (nothing yet) and readTime >= endTime (everything)", keysOf(lim)))
+	}
 	_ = fmt.Sprint
+}
+
+func flipCmp(op token.Token) token.Token {
+	switch op {
+	case token.LSS:
+		return token.GTR
+	case token.GTR:
+		return token.LSS
+	case token.LEQ:
+		return token.GEQ
+	case token.GEQ:
+		return token.LEQ
+	}
+	return op
+}
+
+func keysOf(m map[string]bool) []string {
+	var out []string
+	for k := range m {
+		out = append(out, k)
+	}
+	sort.Strings(out)
+	return out
+}
+
+// checkBoundary: every ordering comparison in fn between a value derived from Period.Length (the running
+// end of a period) and the time parameter puts equality on the "ended" side: normalised to `end OP t`,
+// OP is <= or > (a comparison and its negation have the same class, so branch polarity does not matter).
+func checkBoundary(r *Run, rule string, fn *ssa.Function, timeParam string) {
+	P := r.P
+	n := 0
+	eachInstr(fn, func(in ssa.Instruction) {
+		b, ok := in.(*ssa.BinOp)
+		if !ok {
+			return
+		}
+		switch b.Op {
+		case token.LSS, token.GTR, token.LEQ, token.GEQ:
+		default:
+			return
+		}
+		sx, sy := backSlice(b.X), backSlice(b.Y)
+		lx, ly := sx.HasField("Period", "Length"), sy.HasField("Period", "Length")
+		tx, ty := sx.HasParam(timeParam), sy.HasParam(timeParam)
+		op := b.Op
+		switch {
+		case lx && !tx && ty && !ly:
+		case ly && !ty && tx && !lx:
+			op = flipCmp(op)
+		default:
+			return
+		}
+		n++
+		r.Check(op == token.LEQ || op == token.GTR, rule, fmt.Sprintf("%s#period-end-vs-%s-%d", fnID(fn), timeParam, n), P.Pos(instrPos(b)),
+			"a period ending exactly at "+timeParam+" counts as ended", "normalised comparison is `periodEnd "+op.String()+" "+timeParam+"`: a period that ends exactly at "+timeParam+" is treated as not yet ended here, while the schedule functions define a period as ended when end <= t (boundary events are dropped or double-counted between siblings)")
+	})
+	r.Floor(rule, "period-end comparisons in "+fn.Name(), n, 1)
 }
